@@ -27,7 +27,7 @@ META = {
              "(file, cut point) pairs. Non-trivial: cut inside the payload (k >= 16); distinct by (file hash, k). "
              "Plus: strace write-trace check (all writes append) and SIGKILL experiment (thorough: 100 kills)."),
     "require": {"quick": ["files", "cuts_in_header", "cuts_in_payload", "cut=len-1", "complete_file_loads",
-                          "trace:writes_checked"],
+                          "trace:writes_checked", "files_near_page_boundary"],
                 "thorough": ["files", "cuts_in_header", "cuts_in_payload", "cut=len-1", "complete_file_loads",
                              "trace:writes_checked", "kill:runs", "kill:torn_in_payload_rejected"]},
     "exhaustive": {"quick": "every cut point of every generated file", "thorough": "every cut point of every generated file"},
@@ -43,6 +43,22 @@ def shards(tier):
                [{"label": "trace", "kind": "trace", "n": 3}]
     return [{"label": "cuts%d" % i, "kind": "cuts", "n": 1100} for i in range(14)] + \
            [{"label": "trace", "kind": "trace", "n": 25}, {"label": "kill", "kind": "kill", "n": 100, "timeout_s": 3000}]
+
+
+def page_boundary_case(rng):
+    """One file whose length lands on / next to a multiple of the 4096-byte page (the loader maps the file)."""
+    target = int(gen.pick(rng, [4096, 8192])) + int(rng.integers(-3, 4))
+    arity = int(rng.integers(1, 3))
+    # header 16 + 1 + 4 + 1 + iw(1) + entries*arity*iw + 1 + entries*4 + 4*rowids, with one-byte index words
+    n_ent = int(rng.integers(1, 4))
+    fixed = 16 + 1 + 4 + 1 + 1 + n_ent * arity + 1 + n_ent * 4
+    total = max(n_ent, (target - fixed) // 4)
+    lens = [total // n_ent] * n_ent
+    lens[0] += total - sum(lens)
+    entries = []
+    for i, ln in enumerate(lens):
+        entries.append((tuple([i] + [int(rng.integers(0, 200)) for _ in range(arity - 1)]), indx.rowids(rng, ln, top=5 * ln + 7, extremes=False)))
+    return {"arity": arity, "entries": entries, "common": int(rng.integers(0, 200)), "page_boundary": True}
 
 
 def small_case(rng):
@@ -73,6 +89,8 @@ def judge(ctx, case):
             IndxIO.save(f, ent, int(case["common"]), numpy.dtype(U32))
         size = os.path.getsize(p)
         ctx.count("files")
+        if case.get("page_boundary"):
+            ctx.count("files_near_page_boundary")
         h = "%s" % (hash(open(p, "rb").read()) & 0xFFFFFFFFFFFF)
         # the complete file must load (else the rejections below mean nothing)
         try:
@@ -122,7 +140,7 @@ def run_shard(ctx):
     kind = ctx.shard["kind"]
     if kind == "cuts":
         for i in range(ctx.shard["n"]):
-            safe_judge(ctx, mod, small_case(ctx.rng))
+            safe_judge(ctx, mod, page_boundary_case(ctx.rng) if i % 10 == 9 else small_case(ctx.rng))
             if ctx.full():
                 return
     elif kind == "trace":
